@@ -36,7 +36,7 @@ func (s *captureSigner) Sign(rnd io.Reader, msg []byte, opts crypto.SignerOpts) 
 // RFC 4034 6.2 (as amended by RFC 6840 5.1): types whose RDATA names are folded to lower case
 var lowerRdataTypes = map[uint16]bool{dns.TypeNS: true, dns.TypeMD: true, dns.TypeMF: true, dns.TypeCNAME: true, dns.TypeSOA: true, dns.TypeMB: true,
 	dns.TypeMG: true, dns.TypeMR: true, dns.TypePTR: true, dns.TypeMINFO: true, dns.TypeMX: true, dns.TypeRP: true, dns.TypeAFSDB: true, dns.TypeRT: true,
-	dns.TypeSIG: true, dns.TypePX: true, dns.TypeNAPTR: true, dns.TypeKX: true, dns.TypeSRV: true, dns.TypeDNAME: true}
+	dns.TypeSIG: true, dns.TypePX: true, dns.TypeNXT: true, dns.TypeNAPTR: true, dns.TypeKX: true, dns.TypeSRV: true, dns.TypeDNAME: true}
 
 type canonRec struct {
 	owner [][]byte
@@ -158,7 +158,7 @@ func newSignKey(r *Rng, alg uint8, owner string) *signKey {
 func genRRset(r *Rng, owner [][]byte, mode int) ([]dns.RR, [][]byte) {
 	types := []uint16{dns.TypeA, dns.TypeAAAA, dns.TypeNS, dns.TypeMX, dns.TypeTXT, dns.TypeSRV, dns.TypeCNAME, dns.TypeSOA, dns.TypePTR, dns.TypeNAPTR,
 		dns.TypeDS, dns.TypeDNSKEY, dns.TypeNSEC, dns.TypeNSEC3, dns.TypeRP, dns.TypeAFSDB, dns.TypeKX, dns.TypeDNAME, dns.TypeMINFO, dns.TypeHINFO, dns.TypeCAA,
-		dns.TypeSVCB, dns.TypeTLSA, dns.TypeSSHFP, dns.TypeRT, dns.TypePX, dns.TypeMB, dns.TypeMG, dns.TypeMR, dns.TypeLOC, dns.TypeURI, dns.TypeSPF}
+		dns.TypeSVCB, dns.TypeTLSA, dns.TypeSSHFP, dns.TypeRT, dns.TypePX, dns.TypeMB, dns.TypeMG, dns.TypeMR, dns.TypeLOC, dns.TypeURI, dns.TypeSPF, dns.TypeMD, dns.TypeMF, dns.TypeNXT, dns.TypeSIG}
 	typ := types[r.Intn(len(types))]
 	n := 1 + r.Intn(4)
 	var set []dns.RR
